@@ -39,6 +39,9 @@ CHECKS = {
  "C13": dict(tech="static analysis: MAC must-pass gates (armed path queries from the verifying CMAC call), MAC-input and key provenance, cache-hit gates, header-frozen-after-MAC ordering rule, swap-pair recognition and forwarding gates on SSA",
    text="Structural necessary conditions decided exactly for their clause: with a key and a matching authenticator the reply write (server) / success return (client) is reachable only through ConstantTimeCompare(option MAC, computed MAC) != 0, the MAC covering the decoded SCION layer and the received UDP datagram under the host-host key for this packet's source and addressed host; cached AS-level keys reused only on protocol/AS/host/epoch match; authenticated requests get PreparePacketAuthOpt(SPIServer)+CMAC under the verified key+serialised option, and no covered header field is changed after a MAC was computed; SPIs differ in the direction bit only; both reply arms swap IA/type/address (and ports), reverse the path, echo SCMP payload, go to the previous hop; forwarding only from the end-host port to other ports, unmodified. CMAC/DRKey internals are trusted.",
    ref="DESIGN.md §4 C13"),
+ "C01": dict(tech="static analysis: linear-normal-form guard matching with must-pass queries, once-per-cycle path rules, clamp/midpoint recogniser over the phi tree of the actuated value, channel/source pairing on SSA",
+   text="Structural necessary conditions decided exactly for their clause: the five start-up conditions (canonical linear form) lie on every path to the actuation and their failure panics; one adj.Do and one clk.Sleep(SyncInterval) per loop cycle; the actuated value is on every arm 0, clamp(ref, RCI*float64(Drift(SI))), clamp(peer, PCI*float64(Drift(SI))) under the peer flag set only beyond the cutoff, or their Midpoint, never a value carried over from an earlier round; ref/peer values come from their own rounds. Float rounding, FTM values and int64 extremes are not decided.",
+   ref="DESIGN.md §4 C01"),
 }
 NA = {
  "C04": "all clauses are value arithmetic over time.Time/uint32 (truncation direction, era unfolding, order preservation); no structural or finite-domain clause; matching the constants would be a frozen-fragment proxy",
